@@ -105,6 +105,33 @@ def reshare(e):
     return e
 
 
+def valid_shapes(e):
+    """shape side conditions of the constructors that the library itself does not check (opbuild.gen occasionally nests a
+    rectangular operator where the class needs a matching / square one, and plain torch then broadcasts silently)"""
+    try:
+        for _, _, k in children(e):
+            if not valid_shapes(k):
+                return False
+        c = e["cls"]
+        shp = lambda x: ob.shape_of(x)[-2:]
+        kids = [k for _, _, k in children(e)]
+        if c in ("AddedDiag", "KronAddedDiag", "LowRankRootAddedDiag", "SumKron"):
+            return shp(kids[0]) == shp(kids[1]) and shp(kids[0])[0] == shp(kids[0])[1]
+        if c in ("Sum", "PsdSum"):
+            return len({tuple(shp(x)) for x in e["ops"]}) == 1
+        if c == "Matmul":
+            return shp(e["l"])[1] == shp(e["r"])[0]
+        if c == "Mul":
+            return shp(e["l"]) == shp(e["r"])
+        if c == "BlockDiag":
+            return shp(e["base"])[0] == shp(e["base"])[1]
+        if c == "Masked":
+            return [len(e["row_mask"]["data"]), len(e["col_mask"]["data"])] == shp(e["base"])
+        return True
+    except Exception:  # noqa
+        return False
+
+
 FLOAT_FIELDS = {
     "Dense": ["t"], "UserMinimal": ["t"], "Diag": ["d"], "ConstantDiag": ["c"], "Toeplitz": ["col"],
     "Triangular": ["t"], "Chol": ["t"], "Root": ["root"], "LowRankRoot": ["root"], "ConstantMul": ["c"],
@@ -272,6 +299,10 @@ def gen_fn_args(rng, fn, kind, shape):
             return bigger() + [rows, cols]
         if kind == "smaller":
             return smaller() + [rows, cols]
+        if kind == "mid1":                  # fewer dimensions than the operator and a size-1 dimension that is broadcast
+            return (batch[1:-1] + [1] if len(batch) >= 2 else [1]) + [rows, cols]
+        if kind == "bcast3":                # one more leading dimension, and the operator's size-1 batch dimensions expanded
+            return [2] + [3 if b == 1 else b for b in batch] + [rows, cols]
         raise ValueError(kind)
 
     if fn == "matmul":
@@ -669,6 +700,13 @@ def compare(case):
             ferr = max(ferr, err) if err == err else float("inf")
         out["forward_err"] = ferr
     out["forward_agrees"] = fwd
+    if chol0 and fn in APPROX_FNS_CHOL0 and (
+            (opr["err"] is not None and opr["phase"] == "backward") or
+            (opr["grads"] is not None and any(g is not None and not bool(torch.isfinite(g).all()) for g in opr["grads"]))):
+        # Lanczos / eigh based roots: the derivative of the eigendecomposition is undefined at repeated eigenvalues, which
+        # the structured integer test data produce; NaN gradients (and what they trigger downstream) are not comparable
+        out.update(status="skip", reason="approximate method (%s): non-finite gradient of the eigendecomposition" % fn)
+        return out, leaves, opr, ref
     if opr["err"] is not None:
         m = opr["err"]
         kind = "raises"
